@@ -17,6 +17,11 @@ THEOREMS = [
     "Mpc.C11_conn_duplex",
     "Mpc.C11_conn_ring_refines",
     "Mpc.C11_conn_ring_send_inv",
+    "Mpc.C11_conn_recv_eof_mid_value",
+    "Mpc.C11_conn_fault_prefix",
+    "Mpc.C11_conn_fault_reported",
+    "Mpc.C11_conn_fault_free_ok",
+    "Mpc.C11_old_writer_gap_witness",
     "Mpc.C11_be_roundtrip",
 ]
 
@@ -26,16 +31,6 @@ EXPECTED_METHODS = sorted([
     "ReceiveByte", "ReceiveUint16", "ReceiveUint32", "ReceiveData", "ReceiveLabel", "ReceiveString",
     "ReceiveInputSizes", "Receive",
 ])
-
-
-def go_const(src, name):
-    m = re.search(r"^\s*%s\s*=\s*([0-9* ]+)$" % name, src, flags=re.M)
-    if not m:
-        return None
-    v = 1
-    for f in m.group(1).split("*"):
-        v *= int(f.strip())
-    return v
 
 
 def lean_const(src, name):
@@ -58,28 +53,32 @@ def run(ctx):
         ctx.leanchecker("MpcVerif.Props.C11")
     ctx.build_drv()
 
-    # ---- structural facts the model assumes about the code shape
-    src = vlib.repo_file("p2p/protocol.go")
     model = open(vlib.LEAN + "/MpcVerif/Model/Conn.lean").read()
-    ctx.fact("p2p buffer constants (numBuffers, writeBufSize, readBufSize) = model constants",
-             [go_const(src, "numBuffers"), go_const(src, "writeBufSize"), go_const(src, "readBufSize")],
-             [lean_const(model, "numBuffers"), lean_const(model, "writeBufSize"), lean_const(model, "readBufSize")])
-    methods = sorted(set(re.findall(r"^func \(c \*Conn\) ((?:Send|Receive)\w*)\(", src, flags=re.M)))
-    ctx.fact("typed Send*/Receive* methods of p2p.Conn = the modelled set", methods, EXPECTED_METHODS)
-    pipe = vlib.repo_file("p2p/pipe.go")
-    ctx.fact("p2p.Pipe builds both ends with NewConn over a crossed pair of io.Pipe",
-             [bool(re.search(r"p0\.r,\s*p1\.w\s*=\s*io\.Pipe\(\)", pipe)),
-              bool(re.search(r"p1\.r,\s*p0\.w\s*=\s*io\.Pipe\(\)", pipe)),
-              bool(re.search(r"return NewConn\(&p0\),\s*NewConn\(&p1\)", pipe))],
-             [True, True, True])
 
     n = 400 if ctx.tier == "quick" else 3000
     seeds = [ctx.seed] if ctx.tier == "quick" else [ctx.seed, ctx.seed + 1000, ctx.seed + 2000]
     if ctx.build_hx():
         ops, out, meta = ctx.run_hx("sys", 0, seed=ctx.seed)
         ctx.absorb_meta(meta, prefix="sys_")
-        ctx.correspond("systematic buffer-boundary sessions", ops, out)
+        # ---- structural facts the model assumes, taken from the COMPILED package (a fresh Conn and reflection in
+        # the harness), never from source text: buffer sizes, the set of typed methods; numBuffers is behavioural
+        # (number of distinct buffer identities the transport sees, checked after the random sessions below)
+        facts = meta.get("facts") or {}
+        ctx.fact("len(Conn.WriteBuf), len(Conn.ReadBuf) of a fresh Conn = model writeBufSize, readBufSize",
+                 [facts.get("write_buf_len"), facts.get("read_buf_len")],
+                 [lean_const(model, "writeBufSize"), lean_const(model, "readBufSize")])
+        ctx.fact("exported Send*/Receive* methods of *p2p.Conn (reflection) = the modelled set",
+                 facts.get("send_recv_methods"), EXPECTED_METHODS)
+        ctx.correspond("systematic buffer-boundary sessions and streams that end inside a value", ops, out)
         distinct_ops(ctx, ops)
+        # writer-goroutine error path: failing / short transport Writes
+        nf = 200 if ctx.tier == "quick" else 2500
+        for s in seeds:
+            ops, out, meta = ctx.run_hx("fault", nf, seed=s)
+            ctx.absorb_meta(meta)
+            ctx.correspond("fault sessions (failing / short Write at every chunk boundary, sticky and transient): "
+                           "bytes written per Write, results of operations and Close, Stats (seed %d)" % s, ops, out)
+            distinct_ops(ctx, ops)
         for s in seeds:
             ops, out, meta = ctx.run_hx("conn", n, seed=s)
             ctx.absorb_meta(meta)
@@ -97,7 +96,14 @@ def run(ctx):
         need = ["plan_all", "plan_prefix", "plan_extra", "plan_reinterpret", "plan_lie",
                 "frag_o", "frag_a", "frag_c", "frag_r", "chunk_full", "cases_pipe", "cases_frag_big",
                 "payload_0", "payload_1", "payload_15..17", "payload_64Ki±", "payload_1Mi±",
-                "payload_ge3Mi", "recv_err_eof", "ring_distinct_buffers_3", "val_b", "val_h", "val_w", "val_l", "val_z", "sys_cases_sys"]
+                "payload_ge3Mi", "recv_err_eof", "ring_distinct_buffers_3", "val_b", "val_h", "val_w", "val_l", "val_z", "sys_cases_sys",
+                "fault_hit_sticky", "fault_hit_transient", "fault_reported_by_op", "fault_reported_by_close_only",
+                "fault_short_0", "fault_short_partial", "fault_error_after_full_write", "fault_not_reached",
+                "sys_cases_eof", "sys_eof_mid_b", "sys_eof_mid_h", "sys_eof_mid_w", "sys_eof_mid_l", "sys_eof_mid_d",
+                "sys_eof_mid_s", "sys_eof_mid_z"]
+        ring = sorted(int(k.rsplit("_", 1)[1]) for k in c if k.startswith("ring_distinct_buffers_"))
+        ctx.fact("largest number of distinct write buffers seen by the transport = model numBuffers",
+                 ring[-1] if ring else None, lean_const(model, "numBuffers"))
         missing = [k for k in need if not c.get(k)]
         ctx.oblige("generator reached every plan / fragmentation kind / payload size class / value kind",
                    not missing, "not reached: %s" % missing)
@@ -107,7 +113,12 @@ def run(ctx):
         "2^20-5..2^20+4, 2 MiB +-1, 3 MiB; read fragmentation one-byte / whole-buffer / cycles over boundary sizes / "
         "hashed 1..max; receive plans all / prefix / extra (EOF) / reinterpret / lying length prefix; 1 in 8 cases "
         "over the real p2p.Pipe in flush-acknowledge rounds; plus the systematic boundary enumeration (value of "
-        "every kind ending delta in {0..20} bytes around the 64 KiB write buffer / 1 MiB read buffer end). "
+        "every kind ending delta in {0..20} bytes around the 64 KiB write buffer / 1 MiB read buffer end) and the "
+        "enumeration of streams that end inside a value (every kind, every cut of the fixed-width values and of the "
+        "length prefix, body cuts at 1 byte / 64 KiB / 1 MiB / last byte); fault sessions: the N-th transport Write "
+        "(N = every chunk boundary of a fixed script and 0..7 on random scripts) fails after 0 / 1 / few / 65535 / "
+        "65536 / all bytes, sticky or transient, with the failing Write held until the next chunk is queued so that "
+        "the asynchronous error report is reproducible. "
         "distinct = distinct op lines with >= 2 sender operations including a value")
     ctx.assumptions += [
         "Go channels are FIFO; conn.Write is modelled as reading the queued buffer atomically (the physical-ring model "
@@ -117,7 +128,11 @@ def run(ctx):
         "values outside the typed domain (u16 >= 2^16, u32 >= 2^32, payloads >= 4 GiB) are truncated by the Go code; "
         "the theorems carry the explicit hypothesis Val.Valid",
         "a transport Read returns at least one byte or an error (a (0, nil) Read makes Fill spin; excluded)",
-        "error paths of the writer goroutine (writerErr, read without synchronisation) are not part of the statement",
+        "transport faults: a Write that writes short returns an error (io.Writer contract); the unsynchronised read of "
+        "writerErr in Flush is modelled as sequentially consistent (every schedule of the writer goroutine is "
+        "quantified over, so a stale read is a later schedule); the caller stops at its first error and calls Close",
+        "C11_conn_fault_prefix holds for every fault pattern since /repo f07ee15 (writer goroutine stops writing after a "
+        "failed Write); the behaviour before the fix is kept as C11_old_writer_gap_witness on FSender.writerStepOld",
         "the send half and the receive half of a Conn share no state (Stats counters are separate atomics)",
     ]
     return ctx.finish(
@@ -127,8 +142,13 @@ def run(ctx):
         "schedule; the model with the three physical buffers and aliasing made explicit refines the value-level "
         "model (ownership invariant: current / queued / free buffers pairwise distinct); Close delivers everything; for every value list, every fragmentation oracle and every trailing "
         "rest the matching typed receives return exactly the values, leave exactly the rest and Recvd = bytes taken "
-        "from the transport; composition (round trip, both directions). Tie: the same Lean definitions are executed "
+        "from the transport; composition (round trip, both directions); a stream that ends inside a value gives the "
+        "complete values and then the end-of-stream error, never a partial value; with failing / short transport "
+        "Writes (any fault pattern, transient or permanent) the wire stays a prefix of the sent stream, success of all operations "
+        "and Close implies full delivery on every transport, an error once reported stays reported. Tie: the same Lean definitions are executed "
         "by drv_c11 on the op lines the harness ran on the real p2p.Conn (harness transport with seeded "
         "fragmentation, and the real p2p.Pipe) and every observable is compared. Oracle on the real code: received "
         "= sent, wire bytes = reference encoding, Stats = bytes moved, rest = encoding of unreceived values, no "
-        "buffer mutation during Write, no error/panic/hang.")
+        "buffer mutation during Write, no error/panic/hang (progress-based watchdog); under faults: wire is a prefix "
+        "of the reference encoding, a failed Write is reported by an operation or by Close, success means full "
+        "delivery; EOF inside a value gives io.EOF after exactly the complete values.")
